@@ -157,6 +157,7 @@ inductive TopOp
   | gc
   | poll
   | frameEnd                              -- `Last`: gc then poll
+  | clearTrackers                         -- `World::clear_trackers` (the end of `App::update`): removal events age
   | wSysEvent (s ty pid : Nat)
   | wBroadcast (ty pid : Nat)
   | wEntityEvent (e ty pid : Nat)
